@@ -87,6 +87,8 @@ type Frame struct {
 	parent   *Frame
 	pure     bool
 	oldVals  map[ssa.Value]Val // for clause evaluation: values in the pre-state
+	quantRec map[ssa.Instruction]*quantRecT // quantifier bodies evaluated in this frame
+	oldQuant map[ssa.Instruction]*quantRecT // the same, from the pre-state evaluation
 	loops    []*loopInfo
 	loopOf   map[*ssa.BasicBlock]*loopInfo
 	rets     []retState
@@ -96,6 +98,12 @@ type Frame struct {
 	namedResults []*ssa.Alloc
 	callSite string
 	inPanicDefers bool
+}
+
+type quantRecT struct {
+	bv   Term
+	vals map[ssa.Value]Val
+	sub  map[ssa.Instruction]*quantRecT
 }
 
 type retState struct {
